@@ -28,7 +28,7 @@ from hypothesis import strategies as st
 from vlib.core import Outcome, Sub
 
 PROPERTY = "C20"
-RULE = ("Five sub-checks. uniform_direct: level vector (d 1-3, levels 1-3, <=150 basis functions), 5-40 samples, lambda "
+RULE = ("Five sub-checks. uniform_direct: level vector (d 1-3, levels 1-3, <=64 basis functions (thorough: 150)), 5-40 samples, lambda "
         "in {0,1e-6,1e-4,0.1,1}, matrix C/I; Regression(data, targets, lambda, matrix) with default arguments, then "
         "build_A_matrix / build_C_matrix / solve_regression(_smooth) on that level vector (the protocol of the "
         "repository's tests). dimwise_direct: the same on non-uniform tensor grids (per dimension a sorted subset of "
@@ -681,21 +681,24 @@ def run_opticom(case):
 LATTICE = [0.05, 0.95] + [k / 16.0 for k in range(1, 16)]
 
 
-def _coord():
-    return st.one_of(st.sampled_from(LATTICE), st.integers(50000, 950000).map(lambda v: v / 1e6))
+def _decode(code):
+    """coordinate in the scaled space: half of the codes are lattice values (k/16 and the range ends), half arbitrary"""
+    if code < 500:
+        return LATTICE[code % len(LATTICE)]
+    return round(0.05 + 0.9 * (code - 500) / 499.0, 6)
 
 
 @st.composite
 def _data(draw, d, nmin=5, nmax=40, targets=True):
     n = draw(st.integers(nmin, nmax))
-    pts = [[draw(_coord()) for _ in range(d)] for _ in range(n)]
+    codes = draw(st.lists(st.integers(0, 999), min_size=n * d, max_size=n * d))
+    pts = [[_decode(codes[i * d + k]) for k in range(d)] for i in range(n)]
     aff = [[draw(st.sampled_from([0.0, -1.0, 2.5, 10.0])), draw(st.sampled_from([1.0, 0.5, 4.0, 100.0]))] for _ in range(d)]
     res = dict(d=d, pts=pts, aff=aff, pin=draw(st.booleans()))
     if targets:
         # one case in six has targets below -1 (rejected at construction, F-C20h); the callers only use targets >= 0
-        lo = draw(st.sampled_from([-4, -4, -4, -4, -4, -40]))
-        res["y"] = [draw(st.one_of(st.integers(lo, 32).map(lambda v: v / 4.0), st.integers(lo * 2500, 10 ** 5).map(lambda v: v / 1e4)))
-                    for _ in range(n)]
+        lo = draw(st.sampled_from([-8, -8, -8, -8, -8, -80]))
+        res["y"] = [v / 8.0 for v in draw(st.lists(st.integers(lo, 400), min_size=n, max_size=n))]
     return res
 
 
@@ -708,7 +711,7 @@ def uniform_direct_strategy(tier):
     def s(draw):
         d = draw(st.integers(1, 3))
         lv = [draw(st.integers(1, 3)) for _ in range(d)]
-        while int(np.prod([2 ** l - 1 for l in lv])) > (150 if tier == "quick" else 350):
+        while int(np.prod([2 ** l - 1 for l in lv])) > (64 if tier == "quick" else 150):
             lv[int(np.argmax(lv))] -= 1
         case = draw(_data(d))
         case.update(_lam_matrix(draw))
